@@ -568,6 +568,84 @@ def run_one(ck, prog):
             ck.ob("C03.18", "released-record-not-carried-forward", bool(carry) and not bad18, fn=rus["path"],
                   detail="after syscall_free succeeded `pred = sp` is reached without `sp` having been reset to the predecessor: pred then points into the unmapped segment")
 
+    # ---- C03.19 a free chunk carries its size at both ends (head, and prev_foot of its successor: that is how free() finds the start of a
+    # free predecessor); only top has no foot. So a head written directly as `size | PINUSE` (free, no foot written) is the head of the chunk
+    # that the same function makes `self.top`; every other free chunk is formed through set_size_and_pinuse_of_free_chunk / set_free_with_pinuse
+    n19, bad19 = 0, []
+    for p19, f19 in prog.fns.items():
+        if not p19.startswith(DL) or f19.get("is_test"):
+            continue
+        c19 = None
+        tops = []
+        cand = []
+        for b in f19["blocks"]:
+            if b.get("cleanup"):
+                continue
+            for i, st in enumerate(b["stmts"]):
+                if st["k"] != "assign" or not st["dst"].get("p"):
+                    continue
+                last = st["dst"]["p"][-1]
+                if last.get("k") == "field" and last.get("n") == "top" and (last.get("adt") or "").endswith("Dlmalloc"):
+                    c19 = c19 or prog.ctx(f19)
+                    tops.append((b["id"], canon(strip_casts(c19.prov.rvalue(st["rv"], (b["id"], i))))))
+                if last.get("k") == "field" and last.get("n") == "head" and (last.get("adt") or "").endswith("Chunk") and st["dst"]["p"][0].get("k") == "deref" and len(st["dst"]["p"]) == 2:
+                    c19 = c19 or prog.ctx(f19)
+                    if b["id"] not in c19.cfg.live_blocks():
+                        continue
+                    v = strip_casts(c19.prov.rvalue(st["rv"], (b["id"], i)))
+                    if isinstance(v, tuple) and v[0] == "bin" and v[1] == "BitOr" and any(str(z[2] or "").endswith("PINUSE") for x in (v[2], v[3]) for z in [strip_casts(x)] if isinstance(z, tuple) and z[0] == "const") and \
+                            not mentions(v, c19.prov, lambda z: z[0] == "const" and str(z[2] or "").endswith("CINUSE")):
+                        ptr = strip_casts(c19.prov.operand({"k": "copy", "p": {"l": st["dst"]["l"]}}, (b["id"], i)))
+                        cand.append((b["id"], ptr))
+        for bid, ptr in cand:
+            n19 += 1
+            # ... on the same way through the function (the same expression in another branch is another chunk)
+            is_top = any(cv == canon(ptr) and (tb == bid or tb in c19.cfg.reachable_from(bid) or bid in c19.cfg.reachable_from(tb)) for tb, cv in tops) or \
+                mentions(ptr, c19.prov, lambda z: z[0] == "field" and z[2] == "top")
+            if not is_top:
+                bad19.append((p19, c19.site(bid), show(ptr)[:80]))
+    ck.floor("C03.19", "heads written as free without a foot", n19, 6)
+    ck.ob("C03.19", "free-head-without-foot-only-for-top", not bad19, fn=bad19[0][0] if bad19 else None, site=bad19[0][1] if bad19 else None,
+          detail=f"`(*{bad19[0][2] if bad19 else ''}).head = size | PINUSE` marks a chunk free without writing its foot, and the chunk is not the one this function makes top: "
+                 "freeing the chunk behind it then computes its predecessor from a stale prev_foot")
+
+    # ---- C03.20 add_segment places the old segment's record at old_top itself, or at least MIN_CHUNK_SIZE above it: what lies between
+    # old_top and the record becomes a free chunk, and a free chunk smaller than MIN_CHUNK_SIZE has no room for its list links (they land
+    # in the record chunk behind it)
+    ads = prog.fns.get(DL + "add_segment")
+    if ck.anchor("C03.20", "add_segment", ads):
+        c20 = prog.ctx(ads)
+        names20 = {x["n"]: x["p"]["l"] for x in ads.get("names", []) if isinstance(x.get("p", {}).get("l"), int) and not x["p"].get("p")}
+        if ck.anchor("C03.20", "add_segment: csp and old_top", ("csp" in names20 and "old_top" in names20) or None):
+            csp_l = names20["csp"]
+            n20, bad20 = 0, []
+            for b in ads["blocks"]:
+                if b.get("cleanup") or b["id"] not in c20.cfg.live_blocks():
+                    continue
+                defs_here = [(i, st) for i, st in enumerate(b["stmts"]) if st["k"] == "assign" and st["dst"]["l"] == csp_l and not st["dst"].get("p")]
+                t = b["term"]
+                if t["k"] == "call" and t.get("dst") and t["dst"]["l"] == csp_l and not t["dst"].get("p"):
+                    n20 += 1
+                    bad20.append((b["id"], f"csp is the result of {t.get('callee')}"))
+                for i, st in defs_here:
+                    n20 += 1
+                    v = strip_casts(c20.prov.rvalue(st["rv"], (b["id"], i)))
+                    old = strip_casts(c20.prov.operand({"k": "copy", "p": {"l": names20["old_top"]}}, (b["id"], i)))
+                    if canon(v) == canon(old):
+                        continue
+                    fs = panics.dominating_facts(c20, b["id"])
+                    far = False
+                    for f in fs:
+                        if f[0] == "cmp" and f[1] in ("Ge", "Gt") and canon(strip_casts(f[2])) == canon(v):
+                            lim = strip_casts(f[3])
+                            if isinstance(lim, tuple) and lim[0] == "call" and (lim[1] or "").endswith("::add") and canon(strip_casts(lim[2][0])) == canon(old) and (fold(lim[2][1]) or 0) >= (prog.const(DL + "MIN_CHUNK_SIZE") or 32):
+                                far = True
+                    if not far:
+                        bad20.append((b["id"], f"csp = {show(v)[:70]} without `that >= old_top + MIN_CHUNK_SIZE` established"))
+            ck.floor("C03.20", "definitions of csp", n20, 2)
+            ck.ob("C03.20", "record-at-old-top-or-a-whole-chunk-above", not bad20, fn=ads["path"], site=c20.site(bad20[0][0]) if bad20 else None,
+                  detail=(bad20[0][1] if bad20 else "") + ": a gap of 1..MIN_CHUNK_SIZE-1 bytes between old_top and the record is turned into a free chunk too small for its links")
+
     # ---- C03.8 a failed in-place resize leaves the heap untouched ------------------------------------------------------------------------------
     trc = prog.fns.get(DL + "try_realloc_chunk")
     if ck.anchor("C03.8", "try_realloc_chunk", trc):
